@@ -7,6 +7,7 @@ import (
 	"net/http"
 	"net/http/httptest"
 	"net/url"
+	"os"
 	"strings"
 
 	"github.com/johannesboyne/gofakes3"
@@ -87,6 +88,7 @@ func canonResp(status int, body []byte, hdr http.Header) string {
 }
 
 func runC16(c *Ctx) {
+	defer c16Binary(c)
 	cfgs := []hostCfg{
 		{hostBucket: true},
 		{bases: []string{"s3.example.com"}},
@@ -297,5 +299,73 @@ func runC16(c *Ctx) {
 				}
 			}
 		}
+	}
+}
+
+
+// (c) the shipped binary: its -hostbucket / -hostbucketbase flags (given once, repeated, or as a
+// comma-separated list) must configure the same addressing as the library options: an object
+// stored path-style is read host-style under every configured base with the same answer.
+func c16Binary(c *Ctx) {
+	if c.Only != "" && c.Only != "mem" {
+		return
+	}
+	bin, err := buildServerBinary(c.Tmp)
+	if err != nil {
+		c.mismatch(Mismatch{Kind: "model", Backend: "binary", Finger: "c16:binary:build", Impl: err.Error()})
+		return
+	}
+	defer os.Remove(bin)
+	type variant struct {
+		args  []string
+		hosts []string // hosts that must address bucket "mybucket"
+	}
+	variants := []variant{
+		{[]string{"-hostbucketbase", "s3.one.test"}, []string{"mybucket.s3.one.test"}},
+		{[]string{"-hostbucketbase", "s3.one.test", "-hostbucketbase", "s3.two.test"}, []string{"mybucket.s3.one.test", "mybucket.s3.two.test"}},
+		{[]string{"-hostbucketbase", "s3.one.test,s3.two.test"}, []string{"mybucket.s3.one.test", "mybucket.s3.two.test"}},
+		{[]string{"-hostbucketbase", "s3.one.test", "-hostbucketbase", "s3.two.test", "-hostbucketbase", "three.test"}, []string{"mybucket.s3.one.test", "mybucket.s3.two.test", "mybucket.three.test"}},
+		{[]string{"-hostbucket"}, []string{"mybucket.anything.test", "mybucket.localhost"}},
+	}
+	for _, v := range variants {
+		args := append([]string{"-backend", "mem"}, v.args...)
+		p, err := startServer(bin, args)
+		if err != nil {
+			c.mismatch(Mismatch{Kind: "model", Backend: "binary", Finger: "c16:binary:start", Impl: err.Error(), Case: args})
+			continue
+		}
+		do := func(method, host, path string, body []byte) (int, string) {
+			req, _ := http.NewRequest(method, "http://127.0.0.1:"+p.port+path, bytes.NewReader(body))
+			if host != "" {
+				req.Host = host
+			}
+			resp, err := binClient.Do(req)
+			if err != nil {
+				return 0, err.Error()
+			}
+			defer resp.Body.Close()
+			b, _ := io.ReadAll(resp.Body)
+			return resp.StatusCode, string(b)
+		}
+		// path-style needs a host that matches no base (with -hostbucket every host is a bucket host:
+		// the object is then written host-style)
+		pathHost := "127.0.0.1:" + p.port
+		if v.args[0] == "-hostbucket" {
+			do("PUT", v.hosts[0], "/", nil)
+			do("PUT", v.hosts[0], "/dir/key", []byte("binary-body"))
+		} else {
+			do("PUT", pathHost, "/mybucket", nil)
+			do("PUT", pathHost, "/mybucket/dir/key", []byte("binary-body"))
+		}
+		for _, h := range v.hosts {
+			st, body := do("GET", h, "/dir/key", nil)
+			c.R.Evaluations++
+			c.nontrivial("binary|" + strings.Join(v.args, " ") + "|" + h)
+			if st != 200 || body != "binary-body" {
+				c.mismatch(Mismatch{Kind: "spec", Backend: "binary", Case: []string{"gofakes3 " + strings.Join(args, " "), "PUT /mybucket ; PUT /mybucket/dir/key (path-style)", "GET /dir/key with Host: " + h},
+					Impl: fmt.Sprintf("%d %s", st, trunc(body, 120)), Spec: "200 binary-body (the object of bucket mybucket, as path-style /mybucket/dir/key answers)", Finger: "c16:binary:host-style"})
+			}
+		}
+		p.kill()
 	}
 }
